@@ -69,6 +69,12 @@ FIXED = [
      "get_interpolation: np.allclose default atol=1e-8 equated a target grid with first node 2e-9 to the stored grid with 1e-9 (identity returned); also log=False and C42 xgrid_reshape/near-nodes-grid/*"),
     ("C42", "xgrid_reshape/near-nodes-grid/log=True", "differing only at very small x",
      "manipulate.xgrid_check: same allclose shortcut left the operator untouched for a grid differing only below 1e-8"),
+    ("C51", "exponent/sv=expanded/qcd=2,qed=1,run=0/ffns", "ignored the scale-variation shift",
+     "QED x QCD with ModSV expanded/exponentiated and xif != 1: compute_aem_list used unshifted scales; residual to the central operator O(a_s) (exponent 0.98 at order (2,1)/(2,2)/(3,1), also exponentiated at (3,1))"),
+    ("C14", "e2e/sv=expanded/not-close", "ignored the scale-variation shift",
+     "with a scale variation scheme and xif != 1 the QED x QCD operator did not reduce to the QCD one for alpha_em -> 0 (gg entry at N=3.5 off by 5-8%)"),
+    ("C13", "as4_ei.roots/b=syn-3real/nonfinite", "roots of the N3LO beta polynomial",
+     "as4_evolution_integrals.roots([11/6, 1., 1/6]) and roots([0.3, 20., 7.]) returned NaN (real sqrt / cube root of negative numbers)"),
     ("C41", "v1-archive/theory/matching_order", "loaded with matching order (0, 0)",
      "v1.update_theory forced matching_order=[0,0] for v0.13 archives of any order"),
 ]
